@@ -60,6 +60,9 @@ func c03Body(r *simcore.Run) {
 		r.Violation("open-new", "", "cannot open a new store with %+v: %v", cfg, err)
 	}
 	r.Sched.SetSwitchPct(r.Pick(100, 50, 20))
+	if r.Pct(50) {
+		r.Sched.EnablePoint("vlog-held")
+	}
 	nTasks := 1 + r.Intn(4)
 	per := 1 + r.Intn(6)
 	var tasks []*simcore.Task
